@@ -140,15 +140,17 @@ PROPERTIES = {
     },
     "C10": {
         "level": "proof",
-        "kani": ["codec::codec_%s" % t for t in ("i8", "u8", "i16", "u16", "i32", "u32", "i64", "u64", "i128", "u128")] + ["codec::codec_frac_independent"],
-        "explanation": "the real parity-scale-codec derive on one alias per family: encode == to_le_bytes == encoding of the bits, "
-                       "max_encoded_len == width/8, decode round trip consuming the input, every shorter input fails, byte views inverse; all bit patterns",
+        "kani": ["codec::codec_%s" % t for t in ("i8", "u8", "i16", "u16", "i32", "u32", "i64", "u64", "i128", "u128")] + ["codec::codec_frac_independent"]
+                + ["codec::codec_%s_%s" % (t, f) for t in ("i8", "u8", "i16", "u16", "i32", "u32", "i64", "u64", "i128", "u128") for f in ("f0", "fw")],
+        "explanation": "the real parity-scale-codec derive on three aliases per family (Frac = 0, Frac = width, one Frac that is not a multiple of 8): encode == to_le_bytes == encoding of the bits, "
+                       "max_encoded_len == width/8, decode round trip consuming the input, every shorter input fails, byte views inverse - through the inherent methods and through the `Fixed` trait "
+                       "(to_/from_{le,be,ne}_bytes, to_bits / from_bits); all bit patterns",
         "not_covered": ["Wrapping<F> has no Encode/Decode impl in this crate; serde is feature-gated and not built"],
     },
     "C11": {
         "level": "proof",
         "must_fail_quick": False,     # the vacuity twins of these units run under the property that owns each unit (and in C11 thorough)
-        "verus_units": ["arith_widen", "arith128", "widediv", "nofrac", "fracops", "round@*", "transc", "log2inner", "sqrtacc", "powiacc", "leaves", "decbin", "decbin128", "parsetop", "digitsint", "tokeniser", "decfrac", "powfrac", "fmttop", "cmp@*", "fromfixed@*", "fromfloat@*", "wrapping", "traitfwd@*", "intconv", "floatglue", "trig", "cmpfloat@*", "cmpfloatrev@*", "cmpint@*", "cmpintrev@*", "bitops@*", "remint@*", "diveuclid@*"],
+        "verus_units": ["arith_widen", "arith128", "widediv", "nofrac", "fracops", "round@*", "transc", "log2inner", "sqrtacc", "powiacc", "leaves", "decbin", "decbin128", "parsetop", "digitsint", "tokeniser", "decfrac", "powfrac", "fmttop", "fmtdigits", "cmp@*", "fromfixed@*", "fromfloat@*", "wrapping", "traitfwd@*", "intconv", "floatglue", "trig", "cmpfloat@*", "cmpfloatrev@*", "cmpint@*", "cmpintrev@*", "bitops@*", "remint@*", "diveuclid@*"],
         "kani": [{"harness": h, "classes": ["panic"]} for h in
                  _mods("arith8", ["i4f4", "i0f8", "u4f4", "u0f8"], FORMS) + ["arith8::abs_forms_i8"] + TFH
                  + ["float::check_to_f32", "float::check_to_f64", "float::check_kind_f32", "float::check_kind_f64"]
@@ -201,7 +203,7 @@ PROPERTIES = {
     },
     "C09": {
         "level": "other",
-        "verus_units": ["leaves", "fmttop"],
+        "verus_units": ["leaves", "fmttop", "fmtdigits"],
         "kani": ["display::display_default", "display::display_precision", "display::display_plus", "display::display_lower_hex", "display::display_binary", "display::display_width_precision", "display::display_lower_hex_u16"],
         "kani_thorough": ["display::display_sign", "display::display_zero_pad", "display::display_width", "display::display_width_precision_left", "display::display_width_precision_zero", "display::display_upper_hex",
                           "display::display_octal", "display::display_alt_hex", "display::display_octal_u16", {"harness": "display::display_default_u16", "timeout": 3000}, "display::display_lower_hex_u32"],
@@ -210,18 +212,25 @@ PROPERTIES = {
                        "exactly rounded expansion; sign / + / zero padding / width only add prefix and padding; "
                        "radix 2, 8, 16 outputs are exact; and on every 16-bit value and all 17 layouts (the per-width code of impl_radix_helper! that the 8-bit "
                        "instance never runs: u16 delegates to the u8 helper when fewer than 8 bits are in use): `{:x}` exact (quick), `{:o}` exact and `{}` "
-                       "well formed and within half an ulp, i.e. round-trip safe (thorough); `{:x}` of every 32-bit value x all 33 layouts (thorough).  Verus, all widths, all values, every precision: the width-specific leaves Mul10 x5 and ceil_log10_2_times, "
-                       "and (unit fmttop) the generic top of the formatter fmt_dec<U> / fmt_radix2<U> with Buffer::new, Buffer::set_len, Radix::digit_bits: every shift amount is in range, "
-                       "no digit count overflows, and the buffer-length assertion of set_len cannot fire nor its index leave the 130-byte buffer, because the integer part "
-                       "uses at most W - f bits (leading_zeros >= f) and the fraction at most f bits (trailing_zeros >= W - f), so int_digits + frac_digits <= W <= 128 "
-                       "for any requested precision - the part of 'no value or flag combination panics' that depends on the width",
-        "bounded_parts": ["8-bit layouts (all formats and flags) and 16-bit layouts (`{:x}`, `{:o}`, `{}`) only; precision <= 9; width <= 12; one flag at a time; "
-                          "core::str::from_utf8 stubbed by its unchecked variant; for the 32..128-bit types only the leaves and the top of the formatter (unit fmttop) are under contract: "
-                          "the digit writers write_int* / write_frac*, round_and_trim, encode_digits, pad_and_print (`iter_mut` over sub-slices, core::fmt) are declared without contract in unit fmttop, "
-                          "i.e. assumed total there"],
-        "assumptions": ["unit fmttop: trait-level contracts of the generic unsigned FmtHelper - `<<` / `>>` of the primitive types, leading_zeros (a value below 2^k has at least W - k), "
-                        "trailing_zeros (zero has W; a multiple of 2^k has at least k) - are statements about core's primitive integer methods, assumed; core::cmp::min and "
-                        "Formatter::precision (any Option<usize>) are assume_specification; ceil_log10_2_times is declared with the contract proved in unit leaves"],
+                       "well formed and within half an ulp, i.e. round-trip safe (thorough); `{:x}` of every 32-bit value x all 33 layouts (thorough).  "
+                       "Verus, ALL widths, all values, every layout, every precision (units leaves, fmtdigits, fmttop): the digit generation of the formatter is under contract from the bit pattern to the "
+                       "buffer handed to Buffer::finish.  Unit fmtdigits: the four digit writers of impl_radix_helper! for u8 .. u128 (R22: `iter_mut` loops over buffer sub-slices as index loops, R23: `mut self`), "
+                       "Buffer::int / Buffer::frac, Radix::max / digit_bits, lower_byte - write_int_dec / write_int write exactly the digits of the integer part (value of the digit string == the integer, "
+                       "the debug assertions `self != 0` / `self == 0` cannot fire); write_frac_dec / write_frac write the first m digits of the fraction with x * r^m == digits * 2^W + rem and return the order of "
+                       "the EXACT remainder against one half; with auto_prec the early stop happens only where the shown digits, rounded to nearest, are strictly within half a unit of the last fractional bit "
+                       "(the scaled half-unit `tie` is exact in every iteration but the last, where the wrapped value is harmless); the half-width delegation is verified against the half type's contract.  "
+                       "Unit fmttop: fmt_dec<U> / fmt_radix2<U> establish the writers' preconditions from the split of the bit pattern (leading_zeros / trailing_zeros, 10^(clog(i)-1) < 2^i <= 10^clog(i) "
+                       "checked by computation for i <= 128) and assert END TO END, in front of Buffer::finish: integer digits == abs >> f, fraction digits == floor(frac * r^m / 2^W), order flag == "
+                       "cmp(exact remainder, 1/2), and for the default format |shown - value| < half a unit of the last fractional bit (what makes the output parse back, given C08); "
+                       "plus Buffer::new, Buffer::set_len: every shift amount in range, no digit count overflows, int_digits + frac_digits <= W <= 128, the buffer-length assertion cannot fire",
+        "bounded_parts": ["BOUNDED (Kani, 8-bit layouts: all formats and flags; 16-bit layouts: `{:x}`, `{:o}`, `{}`; precision <= 9; width <= 12; one flag at a time; core::str::from_utf8 stubbed by its unchecked variant): "
+                          "Buffer::finish = round_and_trim (carry / ties-to-even on the digit buffer from the order flag), encode_digits, pad_and_print (core::fmt: sign, prefix, padding) - declared external in unit fmttop, "
+                          "i.e. the step from (exact digits, exact order flag) to the printed string is decided by the bounded harnesses only"],
+        "assumptions": ["unit fmttop: trait-level contracts of the generic unsigned FmtHelper - `<<` / `>>` of the primitive types, leading_zeros (W - lz = number of significant bits), "
+                        "trailing_zeros (zero has W; otherwise the index of the lowest set bit) - are statements about core's primitive integer methods, assumed; core::cmp::min and "
+                        "Formatter::precision (any Option<usize>) are assume_specification; ceil_log10_2_times is declared with the contract proved in unit leaves; the four digit-writer contracts "
+                        "(contracts/fmthelper.inc) are assumed in unit fmttop for the generic U and proved in unit fmtdigits for u8 .. u128 (one text)",
+                        "unit fmtdigits: Mul10::mul10_assign is declared with the contract proved in unit leaves; IntHelper::MSB is a literal tied to the source text by //@require_source; wrapping_neg is assume_specification"],
     },
     "C12": {
         "level": "proof",
